@@ -660,6 +660,10 @@ func suiteC07Defs(env *Env, res *Result) {
 		}
 		var body []string
 		ne := r.Range(1, 5)
+		onlyAffixes := r.Chance(1, 8) // a file that writes no text of its own: definitions, prefix/suffix lines, nothing else
+		if onlyAffixes {
+			ne = 0
+		}
 		for j := 0; j < ne; j++ {
 			e := r.Pick([]string{"foo", "x", "", "a+", "(?:b|c)"}) + "{{" + r.Pick(names) + "}}" + r.Pick([]string{"", "bar", "{2}", "z?", "{{undefined}}", "{{" + r.Pick(names) + "}}"})
 			body = append(body, e)
@@ -670,10 +674,10 @@ func suiteC07Defs(env *Env, res *Result) {
 				body = append(body, "##!> assemble", "in{{"+r.Pick(names)+"}}", "side", "##!<")
 			}
 		}
-		if r.Chance(1, 4) {
+		if r.Chance(1, 4) || onlyAffixes {
 			body = append([]string{"##!^ pre{{" + names[0] + "}}"}, body...)
 		}
-		if r.Chance(1, 4) {
+		if r.Chance(1, 4) || (onlyAffixes && r.Chance(1, 2)) {
 			body = append([]string{"##!$ {{" + names[0] + "}}post"}, body...)
 		}
 		// fully expanded values
